@@ -135,3 +135,24 @@ func PanicClass(r interface{}) string {
 	}
 	return "other"
 }
+
+// PaddedFunc is the byte image of a function of exactly e code bytes (PUSHes and a RET), p bytes of INT3 padding, and its
+// successor (63 POPs and a RET), followed by 16 INT3 and one RET so that a scan of the successor's padding ends.
+func PaddedFunc(e, p int) []byte {
+	var b []byte
+	for k := 0; k < e-1; k++ {
+		b = append(b, 0x50)
+	}
+	b = append(b, 0xc3)
+	for k := 0; k < p; k++ {
+		b = append(b, 0xcc)
+	}
+	for k := 0; k < 63; k++ {
+		b = append(b, 0x58)
+	}
+	b = append(b, 0xc3)
+	for k := 0; k < 16; k++ {
+		b = append(b, 0xcc)
+	}
+	return append(b, 0xc3)
+}
